@@ -17,18 +17,40 @@ RowsAB(K) == {[a |-> x, b |-> y] : x \in 0..K, y \in 0..K}
 \* one-column targets <<[a|->0], [a|->1], ...>> of every length 0..n (slices are positional)
 CountTargets(n) == {[i \in 1..m |-> [a |-> i - 1]] : m \in 0..n}
 
+\* Partial joins as operations (mode "joins"): the fixed operand is one of the leaves F1..F4
+\* with the constant contents FEnv; a resolved partial join [o |-> "pjoin", fixed, p, common, res, lhs]
+\* acts on rows like a unary operation.
+FEnv == [F1 |-> <<[a |-> 0, c |-> 1], [a |-> 1, c |-> 0], [a |-> 1, c |-> 1]>>,
+         F2 |-> <<[b |-> 0, c |-> 0], [b |-> 1, c |-> 2]>>,
+         F3 |-> <<[a |-> 1, b |-> 1], [a |-> 0, b |-> 0], [a |-> 1, b |-> 1]>>,
+         F4 |-> <<[c |-> 5], [c |-> 6]>>]
+FLeaf(id, cols) == Leaf(id, "it1", cols, 0, -1)
+ApplyX(op, rows) ==
+    IF op.o = "pjoin"
+    THEN LET fr == Den(op.fixed, FEnv) IN
+         IF op.lhs THEN JoinRows(fr, rows, op.common, op.p) ELSE JoinRows(rows, fr, op.common, op.p)
+    ELSE ApplyOp(op, rows)
+OpColsX(op, cols) == IF op.o = "pjoin" THEN cols \cup Cols(op.fixed) ELSE OpCols(op, cols)
+WellFormedOnX(op, tc) ==
+    IF op.o = "pjoin"
+    THEN /\ op.res /\ op.common \subseteq tc /\ op.common \subseteq Cols(op.fixed)
+         /\ ReqP(op.p) \subseteq tc \cup Cols(op.fixed)
+    ELSE WellFormedOn(op, tc)
+
 \* C04 for one (cur, new, commutator k) on targets with columns tc
 CommuteLaw(new, cur, k, tc, targets) ==
     IF k.first.o # "none"
-    THEN /\ WellFormedOn(k.first, tc)
-         /\ k.second.o = "id" \/ WellFormedOn(k.second, OpCols(k.first, tc))
-         /\ ~k.done => WellFormedOn(new, OpCols(k.second, OpCols(k.first, tc)))
+    THEN /\ WellFormedOnX(k.first, tc)
+         /\ k.second.o = "id" \/ WellFormedOnX(k.second, OpColsX(k.first, tc))
+         /\ ~k.done => WellFormedOnX(new, OpColsX(k.second, OpColsX(k.first, tc)))
          /\ \A T \in targets :
-              LET s2 == ApplyOp(k.second, ApplyOp(k.first, T))
-                  final == IF k.done THEN s2 ELSE ApplyOp(new, s2)
-              IN final = ApplyOp(new, ApplyOp(cur, T))
+              LET s2 == ApplyX(k.second, ApplyX(k.first, T))
+                  final == IF k.done THEN s2 ELSE ApplyX(new, s2)
+              IN \* a join has no row order of its own (only the SQL engine evaluates joins): multisets
+                 IF new.o = "pjoin" THEN SameBag(final, ApplyX(new, ApplyX(cur, T)))
+                 ELSE final = ApplyX(new, ApplyX(cur, T))
     ELSE /\ k.second = cur
-         /\ k.done => \A T \in targets : ApplyOp(new, ApplyOp(cur, T)) = ApplyOp(cur, T)
+         /\ k.done => \A T \in targets : ApplyX(new, ApplyX(cur, T)) = ApplyX(cur, T)
 
 \* finding F2 (open): Projection.commute moves a projection upstream of a
 \* Deduplication (pinned by tests/test_projection.py)
